@@ -225,6 +225,8 @@ static Rsp t12_osap(Buf *b, uint16_t et, uint32_t ev) {
     Rsp r = run(b); g12_learn_handle(&r); return r;
 }
 
+#include "t12_client.h"
+
 /* =====================================================  C18  ===================================================== */
 
 static long c18_failed_seen;
@@ -494,7 +496,7 @@ static Rsp c20_run(Buf *b, const char *label) {
     return r;
 }
 static void c20_obs(const char *name, const Rsp *r, const char *extra_fmt, ...) {
-    tr_begin("op name=%s loc=%d ret=%u rc=%u", name, g_locality, r->ret, r->rc);
+    tr_begin("op name=%s loc=%d ret=%u rc=%u stores=%ld", name, g_locality, r->ret, r->rc, g_store_perm_in_cmd);
     if (extra_fmt) { va_list ap; va_start(ap, extra_fmt); fputc(' ', g_tr); vfprintf(g_tr, extra_fmt, ap); va_end(ap); }
     trhex("out", r->len > 10 && r->rc == 0 ? r->p + 10 : NULL, r->len > 10 && r->rc == 0 ? r->len - 10 : 0);
 }
@@ -523,7 +525,7 @@ static void c20_sha(Buf *b, const char *name, uint32_t ord, int with_pcr, uint32
 static void c20_other(Buf *b) {            /* an unrelated ordinal between SHA-1 thread commands */
     if (chance(50)) { t12_begin(b, T12_TAG0, T12_ORD_GetTicks); } else { t12_begin(b, T12_TAG0, T12_ORD_GetRandom); b_u32(b, 4); }
     Rsp r = c20_run(b, "other"); if (r.rc == 0xFFFFFFFF && !r.len) return;
-    tr("op name=other loc=%d ret=%u rc=%u", g_locality, r.ret, r.rc);
+    tr("op name=other loc=%d ret=%u rc=%u stores=%ld", g_locality, r.ret, r.rc, g_store_perm_in_cmd);
 }
 static uint32_t c20_startup_st(Buf *b, uint16_t st) {
     t12_begin(b, T12_TAG0, T12_ORD_Startup); b_u16(b, st);
@@ -563,8 +565,9 @@ static void c20_sha_thread(Buf *b) {
 static void c20_tis_hash(int complete) {
     static uint8_t d[4096];
     if (iso_before("TPM_IO_Hash_Start", 17)) return;
+    long st0 = g_store_calls;
     TPM_RESULT ret = TPM_IO_Hash_Start(); iso_after();
-    tr("op name=hashstart loc=%d ret=0 rc=%u out=-", g_locality, ret);
+    tr("op name=hashstart loc=%d ret=0 rc=%u stores=%ld out=-", g_locality, ret, g_store_calls - st0);
     int nd = rnd(5);
     for (int i = 0; i < nd; i++) {
         uint32_t n = chance(80) ? rnd(200) : rnd(4096);
@@ -593,12 +596,13 @@ static void c20_history(int h, void *arg) {
     int nvpct = (h % 3 == 0) ? 0 : (h % 3 == 1) ? 45 : 75;
     if (nvpct && chance(80)) { c20nv_tscpp(&b, 0x20); c20nv_tscpp(&b, 0x08); c20nv_define(&b, 0x00011200u, NVP_PPWRITE | NVP_WRITEDEFINE, 16, 0x1f, 0x1f); }
     if (nvpct && chance(35)) c20nv_define(&b, T12_NV_INDEX_LOCK, 0, 0, 0x1f, 0x1f);
+    if (h % 8 == 4 || h % 8 == 7) { nvpct = 70; c20nv_install_owner(&b); if (chance(70)) c20nv_define(&b, T12_NV_INDEX_LOCK, 0, 0, 0x1f, 0x1f); }   /* two RSA key generations */
     int n = 10 + rnd(maxops), tis_open = 0;
     for (int i = 0; i < n; i++) {
         if (chance(20)) g_locality = rnd(5);
         if (nvpct && chance((uint32_t)nvpct)) {
             long before = g_store_calls;
-            c20nv_random(&b);
+            if (c20nv_owner && chance(55)) c20nv_random_owner(&b); else c20nv_random(&b);
             /* a power cycle / suspend-resume placed immediately after the command, mostly when it wrote storage or set a
                lock (so that no later command re-writes the permanent state first) */
             if (chance(g_store_calls != before ? 12 : 3)) {
@@ -663,8 +667,9 @@ static void c20_history(int h, void *arg) {
             c20_estget(); break;
         case 16: {
             if (iso_before("TPM_IO_TpmEstablished_Reset", 27)) break;
+            long st0 = g_store_calls;
             TPM_RESULT ret = TPM_IO_TpmEstablished_Reset(); iso_after();
-            tr("op name=estreset loc=%d ret=0 rc=%u out=-", g_locality, ret); c20_estget(); break; }
+            tr("op name=estreset loc=%d ret=0 rc=%u stores=%ld out=-", g_locality, ret, g_store_calls - st0); c20_estget(); break; }
         case 17: {  /* power cycle: permanent state from storage, PCRs back to their initial values */
             if (!chance(30)) { c20_rand_bytes(d, 20); c20_extend(&b, 16 + rnd(8), d); break; }   /* MainInit is slow (self tests) */
             TPMLIB_Terminate(); TPM_RESULT ret = TPMLIB_MainInit();
